@@ -300,9 +300,10 @@ def check_rows_whole(run, f, cfg, fn, ncalls):
     for m in walk(fn["hir"]):
         if m.get("k") == "match" and m.get("src") == "Normal":
             for a in m["arms"]:
-                pd = (a["pat"].get("path") or {}).get("def") or ""
-                if pd.endswith("InsertValueSource::Values"):
-                    binds = [b for b in walk(a["pat"]) if b.get("k") == "bind"]
+                # `InsertValueSource::Values(values)` or the same inside `Some(..)`
+                hit = [q for q in walk(a["pat"]) if q.get("k") == "variant" and ((q.get("path") or {}).get("def") or "").endswith("InsertValueSource::Values")]
+                if len(hit) == 1:
+                    binds = [b for b in walk(hit[0]) if b.get("k") == "bind"]
                     if len(binds) == 1:
                         arms.append((binds[0], a))
     if len(arms) != 1:
